@@ -29,6 +29,8 @@ def plan(tier, seed):
     npl = 4 if tier == 'quick' else 10
     for i in range(npl):
         shards.append({'name': 'planted-%d' % i, 'fn': 'shard_planted', 'args': {'part': i, 'parts': npl}})
+    for i in range(2 if tier == 'quick' else 6):
+        shards.append({'name': 'planted-pipeline-%d' % i, 'fn': 'shard_planted_pipeline', 'args': {'part': i}})
     return shards
 
 
@@ -153,3 +155,32 @@ def shard_planted(sh, part, parts):
         sh.classes['planted: uncorrected score ranks the id feature first' if discriminating else 'planted: NOT discriminating'] += 1
         sh.case(('planted', n, s), discriminating, 'planted-n%d' % n,
                 sample={'n': n, 'seed': s, 'corrected_scores': scores, 'uncorrected_scores': plain} if s == jobs[0][1] else None)
+
+
+def shard_planted_pipeline(sh, part):
+    """The same corollary observed where users see it: consecutive equally sized mini-batches scored by mixed_rank_graph
+    (heuristic selected by name) in one process; every feature-label score is also compared with the model on that batch."""
+    import numpy as np
+    import pandas as pd
+    from vf import pipe
+    cr = pipe.fresh_core_ranking()
+    r = sh.nprng('pp', part)
+    n = 4000
+    for batch in range(3 if sh.tier == 'quick' else 8):
+        target = r.integers(0, 2, n)
+        sig = np.where(r.random(n) < 0.15, 1 - target, target)
+        cols = {'signal': sig, 'noise-5': r.integers(0, 5, n), 'noise-400': r.integers(0, 400, n), 'noise-id': r.permutation(n), 'const': np.zeros(n, dtype=int), 'label': target}
+        df = pd.DataFrame({k: ['v%d' % x for x in v] for k, v in cols.items()})
+        args = pipe.make_args(heuristic='MI-numba-randomized', target_ranking_only='True', combination_number_upper_bound=10 ** 6)
+        ok, out = sh.call('planted-ranking', 'mixed_rank_graph', cr.mixed_rank_graph, df, args, pipe.SyncPool(), pipe.NullPbar())
+        if not ok:
+            return
+        scores = {a: float(s) for a, b, s in out.triplet_scores if b == 'label'}
+        codes = {k: np.array(pipe.codes_sorted(df[k].tolist()), dtype=np.int32) for k in cols}
+        for k in cols:
+            exp = oracles.corrected_model(codes[k], codes['label'])
+            sh.check('corrected-model', oracles.close32(scores[k], exp), 'pipeline-score!=displaced-copy-model-on-this-batch',
+                     lambda: {'batch': batch, 'feature': k, 'got': scores[k], 'model': exp, 'all_scores': scores})
+        best_noise = max(v for k, v in scores.items() if k not in ('signal', 'label'))
+        sh.check('planted-ranking', scores['signal'] > best_noise, 'noise-outranks-signal', lambda: {'batch': batch, 'scores': scores})
+        sh.case(('planted-pipeline', part, batch), True, 'planted-pipeline', sample={'batch': batch, 'scores': scores} if batch == 1 else None)
